@@ -213,23 +213,45 @@ def xlsx_text_ok(s: str) -> bool:
 
 
 def to_xlsx(grids: list[dict]) -> bytes:
+    """openpyxl writes an integral float as `<v>42</v>` (read back as int): cells typed `ifloat` are
+    rewritten to `<v>42.0</v>` in the sheet XML, which openpyxl reads as the float 42.0 — the value
+    `xlsx_value_to_str` must spell `42`."""
+    import zipfile
+
     import openpyxl
+    from openpyxl.utils import get_column_letter
 
     wb = openpyxl.Workbook()
     wb.remove(wb.active)
-    for g in grids:
+    ifloats = {}
+    for si, g in enumerate(grids, start=1):
         ws = wb.create_sheet(title=g["name"])
         for ri, row in enumerate(g["grid"], start=1):
-            for ci, (_ty, v) in enumerate(row, start=1):
+            for ci, (ty, v) in enumerate(row, start=1):
                 if v is None:
                     continue
                 cell = ws.cell(row=ri, column=ci)
                 cell.value = v
                 if isinstance(v, str):
                     cell.data_type = "s"  # never a formula
+                if ty == "ifloat":
+                    ifloats.setdefault(si, []).append(f"{get_column_letter(ci)}{ri}")
     buf = io.BytesIO()
     wb.save(buf)
-    return buf.getvalue()
+    if not ifloats:
+        return buf.getvalue()
+    out = io.BytesIO()
+    with zipfile.ZipFile(io.BytesIO(buf.getvalue())) as zin, zipfile.ZipFile(out, "w", zipfile.ZIP_DEFLATED) as zout:
+        for item in zin.infolist():
+            data = zin.read(item.filename)
+            m = re.fullmatch(r"xl/worksheets/sheet(\d+)\.xml", item.filename)
+            if m and int(m.group(1)) in ifloats:
+                text = data.decode("utf-8")
+                for ref in ifloats[int(m.group(1))]:
+                    text, n = re.subn(r'(<c r="%s"[^>]*><v>)(-?\d+)(</v>)' % ref, r"\g<1>\g<2>.0\g<3>", text)
+                data = text.encode("utf-8")
+            zout.writestr(item, data)
+    return out.getvalue()
 
 
 # --------------------------------------------------------------------------- stand-in xls
